@@ -43,6 +43,20 @@ static void string_replace_all_occurrences_with_char(char *s, const char *occur,
 	}
 }
 
+/* RFC 6901 section 3: in a reference token '~' must be followed by '0' or '1' */
+static int is_valid_escaping(const char *path)
+{
+	for (; *path; path++)
+	{
+		if (*path == '~' && path[1] != '0' && path[1] != '1')
+		{
+			errno = EINVAL;
+			return 0;
+		}
+	}
+	return 1;
+}
+
 static int is_valid_index(const char *path, size_t *idx)
 {
 	size_t i, len = strlen(path);
@@ -107,6 +121,9 @@ static int json_pointer_get_single_path(struct json_object *obj, char *path,
 		return 0;
 	}
 
+	if (!is_valid_escaping(path))
+		return -1;
+
 	/* RFC states that we first must eval all ~1 then all ~0 */
 	string_replace_all_occurrences_with_char(path, "~1", '/');
 	string_replace_all_occurrences_with_char(path, "~0", '~');
@@ -145,6 +162,8 @@ static int json_pointer_set_single_path(struct json_object *parent, const char *
 	{
 		char *key;
 		int rc;
+		if (!is_valid_escaping(path))
+			return -1;
 		if (!(key = strdup(path)))
 		{
 			errno = ENOMEM;
